@@ -351,6 +351,10 @@ def cli_matrix(tier):
                 for cw in (cwds if rk == 'ok' and tier == 'thorough' else cwds[:2] if rk == 'ok' else cwds[:1]):
                     cid += 1
                     cases.append({'id': cid, 'req': rk, 'out': form, 'cwd': cw})
+        # a starting directory whose name holds a '%' (default name, relative name; succeeding and failing request)
+        for rk, form in (('ok', 'absent'), ('ok', 'rel'), ('reject', 'absent')):
+            cid += 1
+            cases.append({'id': cid, 'req': rk, 'out': form, 'cwd': 'util 90% runs'})
 
         def run_case(c):
             d = os.path.join(root, f"case{c['id']}")
